@@ -115,6 +115,7 @@ def gen_case(rng, pid, tier):
 
     made = []
     few_affs = rng.random() < 0.25
+    zero_dims = rng.random() < 0.25       # instances that ask for nothing in one dimension (a manifest without `disk`)
 
     def newapp():
         napp[0] += 1
@@ -125,6 +126,8 @@ def gen_case(rng, pid, tier):
              rng.choice([0, 30, 30, None]), rng.choice([0, 0, 0, 40, 100]),
              rng.choice([None, None, 1, 1, 2]), rng.random() < 0.12, rng.choice([0, 0, 0, 2, 4]),
              rng.choice(allocs)[0]]
+        if zero_dims and rng.random() < 0.5:
+            a[3][rng.randrange(3)] = 0
         if made and rng.random() < 0.3:
             # a twin: same placement shape (affinity, lease, traits, allocation) as an earlier instance,
             # demand at least as large - what the feasibility tracker and the restore path key on
@@ -240,7 +243,7 @@ def gen_case(rng, pid, tier):
                 al[3] = [x * big for x in al[3]]
         for op in ops:
             if op[0] == 'app':
-                op[3] = [x * big + rng.choice([0, 0, 0, 1, -1, 2]) for x in op[3]]
+                op[3] = [(x * big + rng.choice([0, 0, 0, 1, -1, 2])) if x else 0 for x in op[3]]
             elif op[0] == 'server':
                 op[3] = [x * big for x in op[3]]
             elif op[0] == 'reload':
